@@ -76,8 +76,9 @@ var props = map[string]propSpec{
 	"C07": {Harnesses: []harnessSpec{
 		{Pkg: "protocol", Fn: "VerifC07RogueServer", Validate: 8, MustReach: []string{"connected", "refused"}, ShardBits: 2},
 		{Pkg: "protocol", Fn: "VerifC07OwnServer", Validate: 8, MustReach: []string{"end"}},
-	}, Assumptions: with("client-side TLS handshake contract model (DESIGN 3.5): with InsecureSkipVerify the only guards are VerifyConnection and the server's proof of possession of its leaf key; native twin: a real crypto/tls server (vf.RogueServerConn)", "net.Dialer, real sockets and the pending-authorization path of protocol.Dial (attemptFetch) are outside this check"),
-		Explanation: "real ClientConfigs (nonce, signing, ALPN assembly, chain filtering) and its VerifyConnection / GetClientCertificate callbacks against rogue servers (stale certificate for another nonce, foreign root, self-signed, another node's certificate; with or without the leaf key) for each configuration and dial option set; and against the node's own server when only one of its two roots survives"},
+		{Pkg: "protocol", Fn: "VerifC07Pending", Validate: 4, MustReach: []string{"pending", "end"}, ShardBits: 3},
+	}, Assumptions: with("client-side TLS handshake contract model (DESIGN 3.5): with InsecureSkipVerify the only guards are VerifyConnection and the server's proof of possession of its leaf key; native twin: a real crypto/tls server (vf.RogueServerConn)", "net.Dialer and real sockets (the address handling of protocol.Dial) are outside this check; the pending-authorization path is checked at attemptFetch, with the server side of the handshake computed by the listener's real TLS callback (engine) / a real Accept (native)"),
+		Explanation: "real ClientConfigs (nonce, signing, ALPN assembly, chain filtering) and its VerifyConnection / GetClientCertificate callbacks against rogue servers (stale certificate for another nonce, foreign root, self-signed, another node's certificate; with or without the leaf key) for each configuration and dial option set; and against the node's own server when only one of its two roots survives; the pending-authorization path (not-authorized error, nothing stored, success with the same key after authorization) with both sides of the handshake running the library's code"},
 	"C08": {Harnesses: []harnessSpec{
 		{Pkg: "rotation", Fn: "VerifC08Rotate", Validate: 16, MustReach: []string{"nothing", "promote", "remint", "startover"}, CrossSolver: "z3"},
 	}, Assumptions: with("clock assumption: one rotation call takes < 100 ms and ends before the promoted root expires"), Explanation: "one RotateRootCertificates call from arbitrary stored windows"},
